@@ -128,3 +128,177 @@ example : PgsGo.nestedName [[79,117,116,101,114], [95,105,110,110,101,114], [120
     = [79,117,116,101,114,95,88,73,110,110,101,114,88,89] := by decide
 
 end Pgs.GoNames
+
+/-! ### the whole name table of a file -/
+namespace Pgs.GoNames
+open Pgs Pgs.AST
+
+/-- a string without '.' (every protobuf identifier) -/
+def NoDot (s : String) : Prop := dot ∉ bytesOfString s
+
+/-- all identifiers of a sibling list of messages, at every depth, are dot-free -/
+def NoDotMsgs : Msgs → Prop
+  | .nil => True
+  | .cons h nested rest =>
+    NoDot h.name ∧ (∀ f ∈ h.fields, NoDot f.name) ∧ (∀ o ∈ h.oneofs, NoDot o) ∧ (∀ e ∈ h.enums, NoDot e.name) ∧
+    NoDotMsgs nested ∧ NoDotMsgs rest
+
+def NoDotFile (f : FileD) : Prop :=
+  (∀ e ∈ f.enums, NoDot e.name) ∧ NoDotMsgs f.msgs ∧
+  (∀ s ∈ f.services, NoDot s.name ∧ ∀ m ∈ s.methods, NoDot m.name)
+
+theorem camel_agree (s : String) (h : NoDot s) : pgsSide.camel (bytesOfString s) = genSide.camel (bytesOfString s) :=
+  (C16_camelCase_eq_GoCamelCase _ h).symm
+
+theorem camel_agree_empty : pgsSide.camel (bytesOfString "") = genSide.camel (bytesOfString "") :=
+  camel_agree "" (by simp [NoDot, bytesOfString])
+
+theorem foldl_congr_mem {α β} {f g : β → α → β} : ∀ (l : List α) (b : β), (∀ b, ∀ x ∈ l, f b x = g b x) → l.foldl f b = l.foldl g b := by
+  intro l
+  induction l with
+  | nil => intro b _; rfl
+  | cons a l ih =>
+    intro b h
+    simp only [List.foldl_cons, h b a (List.mem_cons_self ..)]
+    exact ih _ (fun b x hx => h b x (List.mem_cons_of_mem _ hx))
+
+/-- the step of the unique-name pass, named -/
+def uStep (camel : Bytes → Bytes) (fields : List FieldD) (oneofs : List String)
+    (acc : Used × List Bytes × List (Nat × Bytes)) (p : Nat × FieldD) : Used × List Bytes × List (Nat × Bytes) :=
+  let firstMember (o : Nat) : Option Nat := (idx fields).findSome? fun (i, f) => if f.oneofIndex == some o then some i else none
+  let (u, fs, os) := acc
+  let (i, f) := p
+  let (fname, u1) := makeUnique u (camel (bytesOfString f.name)) true
+  match f.oneofIndex with
+  | some o =>
+    if firstMember o == some i then
+      let (oname, u2) := makeUnique u1 (camel (bytesOfString (oneofs.getD o ""))) false
+      (u2, fs ++ [fname], os ++ [(o, oname)])
+    else (u1, fs ++ [fname], os)
+  | none => (u1, fs ++ [fname], os)
+
+theorem uniqueNames_eq (camel : Bytes → Bytes) (fields : List FieldD) (oneofs : List String) :
+    uniqueNames camel fields oneofs =
+      (((idx fields).foldl (uStep camel fields oneofs) (protectedNames.map fun n => (n, true), [], [])).2.1,
+       ((idx fields).foldl (uStep camel fields oneofs) (protectedNames.map fun n => (n, true), [], [])).2.2) := rfl
+
+/-- the unique-name pass only looks at the camel-casing of the names it is given -/
+theorem uniqueNames_congr (c1 c2 : Bytes → Bytes) (fields : List FieldD) (oneofs : List String)
+    (hf : ∀ f ∈ fields, c1 (bytesOfString f.name) = c2 (bytesOfString f.name))
+    (ho : ∀ o : Nat, c1 (bytesOfString (oneofs.getD o "")) = c2 (bytesOfString (oneofs.getD o ""))) :
+    uniqueNames c1 fields oneofs = uniqueNames c2 fields oneofs := by
+  rw [uniqueNames_eq, uniqueNames_eq]
+  have : (idx fields).foldl (uStep c1 fields oneofs) (protectedNames.map fun n => (n, true), [], [])
+       = (idx fields).foldl (uStep c2 fields oneofs) (protectedNames.map fun n => (n, true), [], []) := by
+    apply foldl_congr_mem
+    intro acc p hp
+    obtain ⟨i, f⟩ := p
+    have hm : f ∈ fields := (List.of_mem_zip hp).2
+    simp only [uStep, hf f hm, ho]
+  rw [this]
+
+theorem getD_noDot (oneofs : List String) (h : ∀ o ∈ oneofs, NoDot o) (o : Nat) : NoDot (oneofs.getD o "") := by
+  unfold List.getD
+  cases ho : oneofs[o]? with
+  | none => simp [NoDot, bytesOfString]
+  | some x => exact h x (List.mem_of_getElem? ho)
+
+theorem nested_agree (path : List Bytes) (h : ∀ n ∈ path, dot ∉ n) : pgsSide.nested path = genSide.nested path :=
+  C16_nested_name path h
+
+/-- **C16 (whole messages)**: below any scope of dot-free names, the two transcriptions give every
+    message, field, oneof, wrapper, enum and enum value the same Go identifier. -/
+theorem msgNames_agree (fi : Nat) : ∀ (ms : Msgs) (p : List Nat) (tag : Nat) (scope : List Bytes) (i : Nat),
+    (∀ n ∈ scope, dot ∉ n) → NoDotMsgs ms →
+    msgNames pgsSide fi p tag scope i ms = msgNames genSide fi p tag scope i ms := by
+  intro ms
+  induction ms with
+  | nil => intro p tag scope i _ _; rfl
+  | cons h nested rest ih1 ih2 =>
+    intro p tag scope i hsc hnd
+    obtain ⟨hn, hf, ho, he, hnest, hrest⟩ := hnd
+    have hpath : ∀ n ∈ scope ++ [bytesOfString h.name], dot ∉ n := by
+      intro n hn'
+      rcases List.mem_append.mp hn' with h1 | h1
+      · exact hsc n h1
+      · simp only [List.mem_singleton] at h1; rw [h1]; exact hn
+    have hm : pgsSide.nested (scope ++ [bytesOfString h.name]) = genSide.nested (scope ++ [bytesOfString h.name]) :=
+      nested_agree _ hpath
+    have hu : uniqueNames pgsSide.camel h.fields h.oneofs = uniqueNames genSide.camel h.fields h.oneofs :=
+      uniqueNames_congr _ _ _ _ (fun f hf' => camel_agree _ (hf f hf')) (fun o => camel_agree _ (getD_noDot _ ho o))
+    have hchild : ∀ (x : String), NoDot x →
+        pgsSide.nested (scope ++ [bytesOfString h.name] ++ [bytesOfString x]) = genSide.nested (scope ++ [bytesOfString h.name] ++ [bytesOfString x]) := by
+      intro x hx
+      apply nested_agree
+      intro n hn'
+      rcases List.mem_append.mp hn' with h1 | h1
+      · exact hpath n h1
+      · simp only [List.mem_singleton] at h1; rw [h1]; exact hx
+    have hheads : ∀ x ∈ nested.heads, NoDot x.1.name := by
+      clear ih1 ih2 hm hu
+      intro x hx
+      induction nested with
+      | nil => simp [Msgs.heads] at hx
+      | cons h' n' r' _ ihr =>
+        simp only [Msgs.heads, List.mem_cons] at hx
+        rcases hx with rfl | hx
+        · exact hnest.1
+        · exact ihr hnest.2.2.2.2.2 hx
+    have hnt : (nested.heads.map fun (x : MsgHead × Msgs) => pgsSide.nested (scope ++ [bytesOfString h.name] ++ [bytesOfString x.1.name]))
+          ++ h.enums.map (fun e => pgsSide.nested (scope ++ [bytesOfString h.name] ++ [bytesOfString e.name]))
+        = (nested.heads.map fun (x : MsgHead × Msgs) => genSide.nested (scope ++ [bytesOfString h.name] ++ [bytesOfString x.1.name]))
+          ++ h.enums.map (fun e => genSide.nested (scope ++ [bytesOfString h.name] ++ [bytesOfString e.name])) := by
+      congr 1
+      · apply List.map_congr_left; intro x hx; exact hchild _ (hheads x hx)
+      · apply List.map_congr_left; intro e he'; exact hchild _ (he e he')
+    have henums : ((idx h.enums).map fun (q : Nat × EnumD) =>
+          ((⟨fi, p ++ [tag, i] ++ [4, q.1]⟩ : Ref), "enum", pgsSide.nested (scope ++ [bytesOfString h.name] ++ [bytesOfString q.2.name]))
+          :: (idx q.2.values).map fun (v : Nat × EnumValD) => ((⟨fi, p ++ [tag, i] ++ [4, q.1, 2, v.1]⟩ : Ref), "value",
+                pgsSide.nested (scope ++ [bytesOfString h.name]) ++ underscore :: bytesOfString v.2.name))
+        = ((idx h.enums).map fun (q : Nat × EnumD) =>
+          ((⟨fi, p ++ [tag, i] ++ [4, q.1]⟩ : Ref), "enum", genSide.nested (scope ++ [bytesOfString h.name] ++ [bytesOfString q.2.name]))
+          :: (idx q.2.values).map fun (v : Nat × EnumValD) => ((⟨fi, p ++ [tag, i] ++ [4, q.1, 2, v.1]⟩ : Ref), "value",
+                genSide.nested (scope ++ [bytesOfString h.name]) ++ underscore :: bytesOfString v.2.name)) := by
+      apply List.map_congr_left
+      intro q hq
+      have : q.2 ∈ h.enums := (List.of_mem_zip hq).2
+      rw [hchild _ (he _ this), hm]
+    simp only [msgNames]
+    rw [ih2 p tag scope (i+1) hsc hrest, ih1 (p ++ [tag, i]) 3 (scope ++ [bytesOfString h.name]) 0 hpath hnest]
+    by_cases hme : h.mapEntry = true
+    · simp [hme]
+    · have hme' : h.mapEntry = false := by simpa using hme
+      simp only [hme', Bool.false_eq_true, if_false]
+      rw [hu, hnt, henums, hm]
+
+/-- **C16 (whole files)**: for every file whose identifiers are dot-free — every file protobuf
+    accepts — pgsgo's transcription and protoc-gen-go's give the same Go identifier to every
+    message, enum, enum value, field, oneof, oneof wrapper, service and method. -/
+theorem C16_file_names (fi : Nat) (f : FileD) (h : NoDotFile f) : fileNames pgsSide fi f = fileNames genSide fi f := by
+  obtain ⟨he, hm, hs⟩ := h
+  unfold fileNames
+  rw [msgNames_agree fi f.msgs [] 4 [] 0 (by simp) hm]
+  congr 1
+  · congr 2
+    apply List.map_congr_left
+    intro q hq
+    obtain ⟨k, e⟩ := q
+    have : e ∈ f.enums := (List.of_mem_zip hq).2
+    have hn : pgsSide.nested [bytesOfString e.name] = genSide.nested [bytesOfString e.name] :=
+      nested_agree _ (by intro n hn'; simp only [List.mem_singleton] at hn'; rw [hn']; exact he e this)
+    simp only [hn]
+  · congr 1
+    apply List.map_congr_left
+    intro q hq
+    obtain ⟨k, sv⟩ := q
+    have hsv : sv ∈ f.services := (List.of_mem_zip hq).2
+    obtain ⟨hsn, hmn⟩ := hs sv hsv
+    simp only [camel_agree _ hsn]
+    congr 1
+    apply List.map_congr_left
+    intro m hm'
+    obtain ⟨j, md⟩ := m
+    have : md ∈ sv.methods := (List.of_mem_zip hm').2
+    simp only [camel_agree _ (hmn md this)]
+
+end Pgs.GoNames
